@@ -83,10 +83,13 @@ def mir_dump(repo=REPO, want_bin=True):
     with _Lock('mir'):
         if os.path.exists(ok):
             return out
-        scratch = os.path.join(SCRATCH_BASE, 'bwverif.mir.%d' % os.getpid())
+        scratch = os.path.join(SCRATCH_BASE, 'bwverif.mir.%s.%d' % (sha, os.getpid()))
         shutil.rmtree(scratch, ignore_errors=True)
         try:
             _copy_tree(repo, scratch)
+            for dp, _dn, fn in os.walk(os.path.join(scratch, 'src')):
+                for f in fn:
+                    os.utime(os.path.join(dp, f))
             env = dict(ENV)
             env['CARGO_TARGET_DIR'] = os.path.join(CACHE, 'target-mir')
             os.makedirs(out, exist_ok=True)
@@ -122,19 +125,30 @@ def real_binary(repo=REPO, release=False):
     with _Lock('bin-' + prof):
         if os.path.exists(binp):
             return binp
-        scratch = os.path.join(SCRATCH_BASE, 'bwverif.bin.%d' % os.getpid())
+        # the scratch path carries the tree's hash and every source file gets a fresh mtime: cargo decides
+        # freshness by (package path, source mtimes), and a copy that keeps old mtimes in a path an
+        # earlier build used (process ids are reused) would be taken for up to date - the binary of
+        # ANOTHER tree would then be filed under this hash
+        scratch = os.path.join(SCRATCH_BASE, 'bwverif.bin.%s.%d' % (sha, os.getpid()))
         shutil.rmtree(scratch, ignore_errors=True)
         try:
             _copy_tree(repo, scratch)
+            for dp, _dn, fn in os.walk(os.path.join(scratch, 'src')):
+                for f in fn:
+                    os.utime(os.path.join(dp, f))
             env = dict(ENV)
             tdir = os.path.join(CACHE, 'target-bin')
             env['CARGO_TARGET_DIR'] = tdir
             cmd = ['cargo', 'build', '--offline', '--bin', 'blockwatch'] + (['--release'] if release else [])
+            t_build = time.time() - 1
             p = subprocess.run(cmd, cwd=scratch, env=env, stdout=subprocess.PIPE, stderr=subprocess.PIPE)
             if p.returncode != 0:
                 raise BuildError('cargo build failed:\n%s' % p.stderr.decode(errors='replace')[-3000:])
             os.makedirs(out, exist_ok=True)
-            shutil.copy2(os.path.join(tdir, prof, 'blockwatch'), binp + '.tmp')
+            built = os.path.join(tdir, prof, 'blockwatch')
+            if os.path.getmtime(built) < t_build:
+                raise BuildError('cargo did not relink the binary for this tree (stale %s)' % built)
+            shutil.copy2(built, binp + '.tmp')
             subprocess.run(['strip', binp + '.tmp'], stdout=subprocess.DEVNULL, stderr=subprocess.DEVNULL)
             os.rename(binp + '.tmp', binp)
         finally:
